@@ -6,7 +6,7 @@ import FiberModel.C05.Sched
 Driver for C05. Case fields (after the id):
   mode(0..4)  hist(`;`-separated requests or `-`)  probe  freshObs  fullDiff(`,`-list or `-`)  implObs
 request := method|path|query|flash|bad|script|host
-  query: `hexk=hexv,…` or `-`; flash: `n` or `c:<hex>`; bad: 0|1|2; script: `op:hexarg:…,…` or `-`
+  query: `hexk=hexv,…` or `-`; flash: `n` or `c:<hex>`; bad: 0|1|2; script: `op:hexarg:…,…` or `-` (sf:<six config digits>:<request header 0|1|2>)
 -/
 open B DriverUtil C05
 
@@ -47,6 +47,16 @@ def parseAct (s : String) : Option Act :=
     let n ← (← fromHex n) |> decToNat?
     if [400, 403, 404, 500, 503].contains n then some (.er n) else none
   | ["ob"] => some .ob
+  | ["sf", code, hdr] => do
+    let code ← fromHex code; let hdr ← (← fromHex hdr) |> decToNat?
+    match code with
+    | [f, c, r, d, k, m] =>
+      let dig (x : Nat) (max : Nat) : Option Nat := if 48 ≤ x && x ≤ 48 + max then some (x - 48) else none
+      let f ← dig f 2; let c ← dig c 1; let r ← dig r 1; let d ← dig d 1; let k ← dig k 2; let m ← dig m 2
+      if hdr > 2 then none
+      some (.sf { fs := f, compress := c == 1, byteRange := r == 1, download := d == 1, cacheDur := k,
+                  maxAge := [0, 60, 3600].getD m 0 } hdr)
+    | _ => none
   | _ => none
 
 def parseReq (s : String) : Option Req :=
@@ -68,6 +78,7 @@ def parseReq (s : String) : Option Req :=
     -- `n` values the int binder sees: decimal words short enough not to overflow
     if !(q.all fun kv => kv.1 != b "n" || !allDigits kv.2 || kv.2.length ≤ 18) then none
     if (sc.filter (· == .ob)).length > 1 then none
+    if (sc.filter fun a => match a with | .sf .. => true | _ => false).length > 1 then none
     some { method := m, path := p, host := host, query := q, flash := fl, bad := bad, script := sc }
   | _ => none
 
@@ -95,7 +106,8 @@ def renderObs (o : Obs) : String :=
     | some s => ("1", hexListField s.params, listField (s.msgs.map fmtMsg), listField (sortStrs (s.old.map fun (m : Msg) => fmtMsg { m with level := 0 })),
                  hexListField (s.view.flatMap fun (p : Bytes × Bytes) => [p.1, p.2]), hexListField s.locals, hx s.base)
     | none => ("0", "-", "-", "-", "-", "-", "-")
-  s!"st={r.status};ct={hx r.ctype};loc={hx r.location};sc={sc};xh={hexListField xh};al={hx r.allow};body={hx r.body};" ++
+  s!"st={r.status};ct={hx r.ctype};loc={hx r.location};sc={sc};xh={hexListField xh};al={hx r.allow};" ++
+  s!"cc={hx r.cacheControl};cd={hx r.disposition};ce={hx r.encoding};cr={hx r.contentRange};body={hx r.body};" ++
   s!"ob={ob};params={params};msgs={msgs};old={old};view={view};locals={locals};base={base}"
 
 def facts : RFacts := theFacts
@@ -155,6 +167,8 @@ def handleCase (f : List String) : Except String Verdict := do
       (if hs.any (·.bad != 0) then ["hist-malformed"] else []) ++
       (if served.any (fun r => r.script.any fun a => match a with | .wi .. | .inp | .rs _ => true | _ => false) then ["hist-redirect-state"] else []) ++
       (if served.any (fun r => r.script.any fun a => match a with | .vb .. | .lo .. | .ba | .bu => true | _ => false) then ["hist-ctx-state"] else []) ++
+      (if served.any (fun r => r.script.any fun a => match a with | .sf .. => true | _ => false) then ["hist-sendfile"] else []) ++
+      (if p.script.any (fun a => match a with | .sf .. => true | _ => false) then ["probe-sendfile"] else []) ++
       (if !served.isEmpty then ["nt"] else [])
     pure { id := id, modelObs := mo, implObs := impl, spec := specViolation fresh impl diffs, tags := tags }
   | _ => throw s!"outside-domain: expected 7 fields, got {f.length}"
